@@ -2,6 +2,6 @@ CONSTANTS
   Depth = 2
   AllVias = FALSE
   Prune = TRUE
-  PruneLast = FALSE
+  PruneLast = TRUE
 SPECIFICATION Spec
 INVARIANT Emit
